@@ -43,6 +43,74 @@ def build_items(ctx, rnd, domain='visible'):
     return items
 
 
+def matchbase_law(item, N):
+    """Relational form of the MATCHBASE clause, for ANY slash-less pattern text (malformed ones included, no spec involved):
+    the real matcher with MATCHBASE accepts the visible one-directory path `d/`+t  <=>  the real matcher without MATCHBASE accepts t,
+    and on slash-less names MATCHBASE changes nothing.  z3 decides both for every t up to N."""
+    import z3
+    from engine.rxsmt import SymStr, RxEnc, NotEncodable
+    from wcmatch import glob as G
+    text, flags = item
+    res = {'item': item, 'status': 'ok', 'sat': 0, 'unsat': 0, 'unknown': 0, 'solver_s': 0.0}
+    try:
+        plain = e1.real_regexes('gl', text, flags & ~G.MATCHBASE)
+        mb = e1.real_regexes('gl', text, flags | G.MATCHBASE)
+    except Exception as ex:  # noqa: BLE001
+        res['status'] = 'compile_raises'
+        res['exc'] = type(ex).__name__
+        return res
+    import re as _re
+    if _re.search(r'[?*+@]\(', text) and any(e1._rc(r).fullmatch('') for r in plain[0]):
+        # a pattern that starts with a group able to match the empty string: with the implicit `**/` prefix of MATCHBASE this is the
+        # walker/matcher form of the listed finding empty-segment-by-nullable-group (the whole name is taken by the prefix)
+        res['status'] = 'region_nullable_group'
+        return res
+    try:
+        t = SymStr('t', N, False)
+        et = RxEnc(t)
+        f_plain = et.matcher(*plain)
+        f_mb_same = et.matcher(*mb)
+        s2 = SymStr('u', N + 2, False)
+        e2 = RxEnc(s2)
+        f_mb_dir = e2.matcher(*mb)
+        tie = [s2.L == t.L + 2, s2.c[0] == s2.cv(ord('d')), s2.c[1] == s2.cv(47)] + [z3.Implies(t.len_gt(i), s2.c[i + 2] == t.c[i]) for i in range(N)]
+        dom = et.side_constraints() + e2.side_constraints() + tie + [t.len_ge(1)]
+        dom += [t.c[i] != t.cv(47) for i in range(N)] + [t.c[0] != t.cv(46), t.c[t.N - 1] == t.c[t.N - 1]]
+        # names ending in a newline: footprint of the listed `$` finding (MATCHBASE adds a globstar fragment)
+        dom += [z3.Not(z3.And(t.len_eq(L), t.c[L - 1] == t.cv(10))) for L in range(1, N + 1)]
+    except NotEncodable as ex:
+        res['status'] = 'not_encodable'
+        res['exc'] = str(ex)
+        return res
+    for label, f in (('matchbase_changes_slashless_name', z3.Xor(f_plain, f_mb_same)), ('matchbase_dir_prefix', z3.Xor(f_plain, f_mb_dir))):
+        r, m, dt = e1.solve(dom + [f])
+        res[r] += 1
+        res['solver_s'] += dt
+        if r == 'sat':
+            res['status'] = label
+            res['witness'] = t.eval(m)
+            return res
+        if r != 'unsat':
+            res['status'] = 'unknown'
+            return res
+    return res
+
+
+def matchbase_items(ctx, rnd):
+    from wcmatch import glob as G
+    E, S, D = G.EXTGLOB, G.GLOBSTAR, G.DOTGLOB
+    texts = [t for t in gen.odd_patterns() if '/' not in t] + ['\\', 'a\\', '\\a', '*\\', '[a\\', '@(a\\', 'a', '*', '?', '*.a', '[ab]*', '@(a|b)', '!(a)', '+(a)b', '']
+    segs = gen.segment_pool('quick', rnd, ext=True)
+    texts += [gen.render_nodes(n) for n in (segs[::40] if ctx.quick else segs[::6])]
+    out = []
+    for k, t in enumerate(dict.fromkeys(texts)):
+        if '/' in t:
+            continue
+        for f in ([E | S, E | D] if ctx.quick else [E | S, E | D, E, S | D | E | G.GLOBSTARLONG, E | G.NODOTDIR, 0]):
+            out.append((t, f))
+    return out
+
+
 def run(ctx):
     rnd = random.Random(ctx.seed * 7919 + 2)
     N = 7 if ctx.quick else 9
@@ -50,3 +118,32 @@ def run(ctx):
     items = build_items(ctx, rnd)
     results = common.pmap(speccheck.obligation, items, ctx.workers, extra=(N, live))
     summarise(ctx, results, N, live, 'gl')
+    # relational MATCHBASE law over arbitrary texts
+    mitems = matchbase_items(ctx, rnd)
+    mres = common.pmap(matchbase_law, mitems, ctx.workers, extra=(5 if ctx.quick else 6,))
+    nq = 0
+    for r in mres:
+        nq += r['sat'] + r['unsat'] + r['unknown']
+        st = r['status']
+        text, flags = r['item']
+        if st == 'ok' or st == 'compile_raises':
+            continue
+        if st == 'region_nullable_group':
+            if 'empty-segment-by-nullable-group' in live:
+                continue
+            ctx.inconclusive.append({'why': 'matchbase law: nullable-group pattern but the listed finding is not live', 'item': r['item']})
+            continue
+        if st in ('unknown', 'not_encodable'):
+            ctx.inconclusive.append({'why': 'matchbase law: ' + st, 'item': r['item'], 'detail': r.get('exc')})
+            continue
+        w = r['witness']
+        from wcmatch import glob as G
+        name = w if st == 'matchbase_changes_slashless_name' else 'd/' + w
+        rep = {'describe': f'C02 MATCHBASE law ({st}) for slash-less pattern {text!r} [{e1.flagnames("gl", flags)}]: with MATCHBASE {name!r}, without {w!r}',
+               'steps': [{'as': 'a', 'call': 'engine.replayfn.matcher_accepts', 'args': ['gl', text, name, {'flags': flags | G.MATCHBASE}]},
+                         {'as': 'b', 'call': 'engine.replayfn.matcher_accepts', 'args': ['gl', text, w, {'flags': flags & ~G.MATCHBASE}]}],
+               'assert': 'a == b'}
+        common.confirm(ctx, rep)
+    ctx.coverage['matchbase_law'] = {'obligations': len(mitems), 'queries': nq, 'name_length_max': 5 if ctx.quick else 6,
+                                     'statement': 'accepts(p, MATCHBASE, "d/"+t) == accepts(p, t) and accepts(p, MATCHBASE, t) == accepts(p, t) for slash-less visible t'}
+    ctx.coverage['evaluations'] = ctx.coverage.get('evaluations', 0) + nq
